@@ -1,6 +1,7 @@
 ------------------------------- MODULE PlotGen -------------------------------
 (* Schedule generator for the plot driver: window sizes (in eighths of the table) for both passes, the windows at *)
-(* which a graceful stop is requested, and whether the run is also traced for crash images.                       *)
+(* which a graceful stop is requested - before the window is computed ("boundary") or when it has been computed   *)
+(* and is about to be written ("inwrite") -, and whether the run is also traced for crash images.                 *)
 EXTENDS Integers, Sequences, TLC, Json
 CONSTANT GenLen
 VARIABLE hist
@@ -8,6 +9,6 @@ RS(X) == RandomElement(IF Len(hist) >= 0 THEN X ELSE {})
 Sizes == {<<8>>, <<1, 8>>, <<4, 4>>, <<3, 2, 8>>, <<1, 1, 1, 8>>, <<2, 5, 8>>, <<7, 8>>, <<1, 2, 3, 8>>, <<5, 1, 8>>, <<2, 2, 2, 2>>, <<1, 6, 1>>, <<3>>}
 Stops == {<<>>, <<1>>, <<2>>, <<3>>, <<2, 4>>, <<1, 2, 3>>, <<4>>, <<5>>, <<3, 6>>, <<2, 3, 5, 7>>}
 GInit == hist = <<>>
-GNext == hist' = Append(hist, [a |-> "Plot", bl |-> RS({8, 9, 10, 11}), aw |-> RS(Sizes), bw |-> RS(Sizes), stops |-> RS(Stops), crash |-> RS({TRUE, FALSE, FALSE})])
+GNext == hist' = Append(hist, [a |-> "Plot", bl |-> RS({8, 9, 10, 11}), aw |-> RS(Sizes), bw |-> RS(Sizes), stops |-> RS(Stops), stopmode |-> RS({"boundary", "inwrite"}), crash |-> RS({TRUE, FALSE, FALSE})])
 Emit == Len(hist) = GenLen => PrintT(<<"BEHAVIOUR", ToJson(hist)>>)
 =============================================================================
